@@ -81,15 +81,14 @@ def validate(behaviours, module, cfg, workdir, chunk_lines=4000, timeout=900, jo
                 hit = chunks[ci][-1]; pos -= len(behaviours[hit])
             failures.append(dict(behaviour=hit, line_in_behaviour=m - pos, violated=r["violated"], chunk=r["path"], tail=r["out_tail"]))
             # a chunk stops at its first failure: the behaviours behind it have not been looked at yet -- run them as a new chunk
+            # (one behaviour per process: the JVM start is cheaper than the repeated rounds a chunk with many failures would need)
             rest = chunks[ci][chunks[ci].index(hit) + 1:]
-            if rest:
+            for bi in rest:
                 p = os.path.join(workdir, "chunk%05d_r%d.ndjson" % (len(nchunk_list), rounds))
-                n = 0
                 with open(p, "w") as f:
-                    for bi in rest:
-                        for ln in behaviours[bi]:
-                            f.write(ln if ln.endswith("\n") else ln + "\n"); n += 1
-                ntasks.append((module, cfg, p, n, timeout, dfs)); nchunk_list.append(rest)
+                    for ln in behaviours[bi]:
+                        f.write(ln if ln.endswith("\n") else ln + "\n")
+                ntasks.append((module, cfg, p, len(behaviours[bi]), timeout, dfs)); nchunk_list.append([bi])
         tasks, chunks = ntasks, nchunk_list
     return dict(chunks=nchunks, failures=failures, broken=broken, distinct=tot_d, generated=tot_g)
 
